@@ -215,45 +215,59 @@ func (state *engineState) FindType(importer *goImporter, currentPkg *types.Packa
 		return cachedType, nil
 	}
 
-	// Code below is under a write critical section.
-	state.typeByFQNMu.Lock()
-	defer state.typeByFQNMu.Unlock()
-
-	typ, err := state.findTypeNoCache(importer, currentPkg, fqn)
-	if err != nil {
-		return nil, err
-	}
-	state.typeByFQN[fqn] = typ
-	return typ, nil
-}
-
-func (state *engineState) findTypeNoCache(importer *goImporter, currentPkg *types.Package, fqn string) (types.Type, error) {
 	pos := strings.LastIndexByte(fqn, '.')
 	if pos == -1 {
 		return nil, fmt.Errorf("%s is not a valid FQN", fqn)
 	}
 	pkgPath := fqn[:pos]
 	objectName := fqn[pos+1:]
-	var pkg *types.Package
+
+	// A type that is found among the dependencies of the current package
+	// is an answer for that package only: another package may be unable
+	// to resolve the same name. So it's never put into the engine-wide cache
+	// (otherwise the result of a lookup would depend on which package
+	// asked first); the importer, which serves a single run, remembers it.
 	if currentPkg != nil {
+		key := depTypeKey{pkg: currentPkg, fqn: fqn}
+		if typ, ok := importer.depTypes[key]; ok {
+			return typ, nil
+		}
 		if directDep := findDependency(currentPkg, pkgPath); directDep != nil {
-			pkg = directDep
+			typ, err := lookupType(directDep, pkgPath, objectName)
+			if err != nil {
+				return nil, err
+			}
+			if importer.depTypes == nil {
+				importer.depTypes = make(map[depTypeKey]types.Type)
+			}
+			importer.depTypes[key] = typ
+			return typ, nil
 		}
 	}
-	if pkg == nil {
-		loadedPkg, err := importer.Import(pkgPath)
-		if err != nil {
-			return nil, err
-		}
-		pkg = loadedPkg
+
+	// Code below is under a write critical section.
+	state.typeByFQNMu.Lock()
+	defer state.typeByFQNMu.Unlock()
+
+	pkg, err := importer.Import(pkgPath)
+	if err != nil {
+		return nil, err
 	}
+	typ, err := lookupType(pkg, pkgPath, objectName)
+	if err != nil {
+		return nil, err
+	}
+	// What the importer finds doesn't depend on the current package.
+	state.typeByFQN[fqn] = typ
+	return typ, nil
+}
+
+func lookupType(pkg *types.Package, pkgPath, objectName string) (types.Type, error) {
 	obj := pkg.Scope().Lookup(objectName)
 	if obj == nil {
 		return nil, fmt.Errorf("%s is not found in %s", objectName, pkgPath)
 	}
-	typ := obj.Type()
-	state.typeByFQN[fqn] = typ
-	return typ, nil
+	return obj.Type(), nil
 }
 
 func inferBuildContext() *build.Context {
